@@ -4,6 +4,7 @@
            obs   : [status, exc, calls, built (how often a handler factory ran), outTags, errTags (arrays), outEsc, errEsc, io [ran, quiet, level, inter], page,
                     answer, consumed, args, outId, errId (interned stream texts)],
            hasBase, base : the observation of the same line without the switch look-alikes after "--"]
+   A trace = the lines run one after the other on ONE application object (the model keeps nothing between runs).
    P-clauses: the P-layer of Switches on the observation.  A-clauses (only for lines inside the modelled placements):
    equality with the A-layer's run.                                                                          *)
 EXTENDS Switches, TraceKit
@@ -15,8 +16,8 @@ Ev == T[l]
 
 \* JSON arrays -> sets for the tags
 Obs(r) == [status |-> r.status, calls |-> r.calls, outTags |-> Range(r.outTags), errTags |-> Range(r.errTags),
-           outEsc |-> r.outEsc, errEsc |-> r.errEsc, io |-> r.io, page |-> r.page, answer |-> r.answer,
-           consumed |-> r.consumed, args |-> r.args, built |-> r.built]
+           outEsc |-> r.outEsc, errEsc |-> r.errEsc, io |-> r.io, page |-> r.page, answer |-> r.answer, answer2 |-> r.answer2,
+           consumed |-> r.consumed, args |-> r.args, built |-> r.built, argsSame |-> r.argsSame]
 
 FamKey(line) == (IF Given(line, QuietT) THEN "q" ELSE "") \o (IF Given(line, HelpT) THEN "h" ELSE "")
                 \o (IF Given(line, VersionT) THEN "V" ELSE "")
@@ -37,6 +38,7 @@ Clauses(e) ==
      /\ Check(tid, l, "P.noansi", "", PNoAnsi(line, o))
      /\ Check(tid, l, "P.ansi", "", PAnsi(line, o))
      /\ Check(tid, l, "P.nointeraction", "", PNoInteraction(line, o))
+     /\ Check(tid, l, "P.command", "", PCommand(line, o))
      /\ Check(tid, l, "P.help", FamKey(line), PHelp(line, o))
      /\ Check(tid, l, "P.version", FamKey(line), PVersion(line, o))
      /\ Check(tid, l, "P.afterdd", "", e.hasBase => PAfterDD(line, o, Obs(e.base)))
